@@ -62,6 +62,7 @@ structure Program where
   flags : List Nat                  -- function_flags[0 .. num_functions_total)
   rt : List REntry                  -- FIND_FUNC_ENTRY (prog, i) for every runtime index
   inherit : List Inherit
+  heartBeat : Option Nat := none     -- prog->heart_beat (runtime index of `heart_beat`, -1 = none)
   deriving Repr
 
 structure World where
@@ -382,16 +383,17 @@ structure St where
   out : List Ev := []          -- newest first
 
 inductive Origin where
-  | co | com | drv | cot | rco
+  | co | com | drv | cot | rco | hb
   deriving Repr, BEq, DecidableEq
 
 def Origin.code : Origin → Nat
   | .co | .com => originCallOther
   | .drv => originDriver
   | .cot | .rco => originCallOut
+  | .hb => originDriver
 
 def Origin.str : Origin → String
-  | .co => "co" | .com => "com" | .drv => "drv" | .cot => "cot" | .rco => "rco"
+  | .co => "co" | .com => "com" | .drv => "drv" | .cot => "cot" | .rco => "rco" | .hb => "hb"
 
 /-- one `call <origin> <oid> <fn>` command -/
 def doCall (w : World) (s : St) (o : Origin) (oid : String) (fn : String) (key : NameKey) : St :=
@@ -417,6 +419,35 @@ def doCall (w : World) (s : St) (o : Origin) (oid : String) (fn : String) (key :
         { s with objs, out := Ev.vars oid run.vars :: Ev.ret (if o == .rco then "swept" else "!err") :: run.evs }
       | .ok =>
         { s with objs, out := Ev.vars oid run.vars :: Ev.ret (if o == .rco then "swept" else tag) :: run.evs }
+
+/-- `call hb <oid> ..`: one backend tick for an object with its heart beat on — call_function (prog, prog->heart_beat):
+    nothing when there is no `heart_beat`, or its slot is NAME_UNDEFINED; else setup_new_frame on that slot.  No apply,
+    no cache, no visibility test. -/
+def doHeartBeat (w : World) (s : St) (oid fn : String) : St :=
+  let evs := Ev.call "hb" oid fn :: s.out
+  match s.objs.find? (·.oid == oid) with
+  | none => { s with out := Ev.ret "!noobj" :: evs }
+  | some ob =>
+    let quiet : St := { s with out := Ev.vars oid ob.vars :: Ev.ret "ticked" :: evs }
+    match w.progs[ob.prog]? with
+    | none => { s with out := Ev.line "crash model-out-of-range" :: evs }
+    | some T =>
+      match T.heartBeat with
+      | none => quiet
+      | some idx =>
+        if idx > T.flags.length then quiet
+        else match T.flags[idx]? with
+          | none => { s with out := Ev.line "crash model-out-of-range" :: evs }
+          | some fl =>
+            if hasBit fl nameUndefined then quiet
+            else match setupNewFrame w ob.prog idx with
+              | none => { s with out := Ev.line "crash model-out-of-range" :: evs }
+              | some fr =>
+                let run := execBody w ob.prog bodyFuel fr ob.vars evs
+                let objs := s.objs.map (fun x => if x.oid == oid then { x with vars := run.vars } else x)
+                match run.out with
+                | .crash => { s with objs, out := Ev.line "crash model-out-of-range" :: run.evs }
+                | _ => { s with objs, out := Ev.vars oid run.vars :: Ev.ret "ticked" :: run.evs }
 
 /-- `evict <oid> <fn>`: a driver apply of a name that does not exist anywhere and whose pointer hashes to
     the slot of (<oid>'s program, <fn>): same `ptr`, fresh name -/
